@@ -146,9 +146,14 @@ def run_case(case, rec):
         if "obs" not in parts:
             return batch
         pin = rng.uniform(-1, 2, (nrows, D))
+        # half of the cases carry observed equation parameters (values far from the caller's): they belong to the
+        # observation term only - the dynamic term must still be evaluated with the given parameters
+        oeq = {"theta": jnp.asarray(rng.uniform(3.0, 5.0, (nrows, 1)))} if case["seed"] % 2 else {}
+        if oeq:
+            rec.count("obs_batches_with_observed_eq_params")
         return jinns.data.append_obs_batch(batch, {"pinn_in": jnp.asarray(pin),
                                                    "val": jnp.asarray(rng.uniform(-1, 1, (nrows, n_out))),
-                                                   "eq_params": {}})
+                                                   "eq_params": oeq})
 
     ev = (lambda l, p, b: l.evaluate(p, b)) if case["eager"] else jax.jit(lambda l, p, b: l.evaluate(p, b))
     mode = "eager" if case["eager"] else "jit"
